@@ -556,6 +556,8 @@ Definition nreqs (s : st) : N := h_nreq (H s).
 Definition errcode (s : st) : N := h_err (H s).
 Definition q_closed (s : st) : bool := q_stop (P s).
 Definition rq_closed (s : st) : bool := rq_stop (R s).
+Definition clock_of (s : st) : N := h_clock (H s).
+Definition shards_of (s : st) : N := cps s.
 Definition cc_open (s : st) : bool := x_open (C s).
 Definition ss_open (s : st) : bool := x_open (S s).
 
